@@ -67,6 +67,12 @@ CHECKS.update({
          "machine-checked proof in Coq (structural induction over filters on the recursion budget, loop-stepping lemmas) + extracted-model/implementation differential correspondence + round-trip oracle"),
 })
 
+CHECKS.update({
+ "C03": ("proof", "Coq theorems: (1) for every message of every operation except UnbindRequest the model encoder's octets equal the serialisation of the BER tree that the RFC 4511 ASN.1 module prescribes (Msg/Rfc.v, written from the RFC: class, number and form of every element, TRUE=FF, DEFAULT/OPTIONAL omission, minimal integers, definite minimal lengths); (2) a strict decoder written from the RFC in two layers (generic definite-length BER tree parser; tree-to-message reader demanding exact tags and forms, FF booleans, omitted defaults, minimal integers, no left-overs) returns exactly the encoded message for every such message, with filters of any depth; (3) the tag constants regenerated from the source are the RFC's numbers. The full statement is refuted for UnbindRequest (constructed bit, 62 00 instead of 42 00: known finding pinned by nine tests). The extracted strict decoder is run on the bytes the implementation produces in every run, next to an independent Python decoder.",
+         "SIZE(1..MAX) and value-range subtype constraints of the ASN.1 module are not part of the strict decoder (the property lists tag/form/length/boolean/default/integer rules); encodings shorter than 256^125 octets.",
+         "machine-checked proof in Coq (spec-tree equality by structural induction, strict parser round trip by induction over trees with explicit fuel) + extracted strict decoder run on implementation bytes + independent Python RFC 4511 decoder"),
+})
+
 def main():
     m = {
         "version": 1,
